@@ -140,3 +140,126 @@ VP_HARNESS(h_leaf)
   VP_WITNESS_IF(removed && (flags & HWLOC_RESTRICT_FLAG_ADAPT_MISC), "Misc child adopted by the parent");
 #endif
 }
+
+/* ---- (c) the WHOLE real hwloc_topology_restrict (workers, unlink, reorder, reconnect, level rebuild, propagation) on a seed, for
+ *          enumerated restrict sets and flag words executed as concrete runs selected by symbolic inputs, against the clauses of C08
+ *          and the independent C01 checker (C02: well-formedness is preserved) ------------------------------------------------- */
+#include "vp_wf.h"
+#ifndef NSLICE
+#define NSLICE 1
+#endif
+#ifndef SLICE
+#define SLICE 0
+#endif
+#ifndef NFL
+#define NFL 2                /* flag words per set (quick: none / all three; thorough: 4) */
+#endif
+#define MAXO 16
+struct snap { unsigned n; uint64_t gp[MAXO]; hwloc_obj_type_t type[MAXO]; unsigned long c[MAXO], cc[MAXO], nd[MAXO], cn[MAXO]; uint64_t parent_gp[MAXO]; void *ud[MAXO]; int has_sets[MAXO]; };
+static void snap_walk(hwloc_obj_t o, struct snap *s)
+{
+  if (s->n >= MAXO) return;
+  unsigned k = s->n++;
+  s->gp[k] = o->gp_index; s->type[k] = o->type; s->c[k] = vp_w(o->cpuset); s->cc[k] = vp_w(o->complete_cpuset); s->nd[k] = vp_w(o->nodeset); s->cn[k] = vp_w(o->complete_nodeset);
+  s->parent_gp[k] = o->parent ? o->parent->gp_index : 0; s->ud[k] = o->userdata; s->has_sets[k] = o->cpuset != NULL;
+  for (hwloc_obj_t c = o->memory_first_child; c; c = c->next_sibling) snap_walk(c, s);
+  for (hwloc_obj_t c = o->first_child; c; c = c->next_sibling) snap_walk(c, s);
+  for (hwloc_obj_t c = o->io_first_child; c; c = c->next_sibling) snap_walk(c, s);
+  for (hwloc_obj_t c = o->misc_first_child; c; c = c->next_sibling) snap_walk(c, s);
+}
+static void tag_walk(hwloc_obj_t o)
+{
+  o->userdata = (void *) (0x1000 + o->gp_index);
+  for (hwloc_obj_t c = o->memory_first_child; c; c = c->next_sibling) tag_walk(c);
+  for (hwloc_obj_t c = o->first_child; c; c = c->next_sibling) tag_walk(c);
+  for (hwloc_obj_t c = o->io_first_child; c; c = c->next_sibling) tag_walk(c);
+  for (hwloc_obj_t c = o->misc_first_child; c; c = c->next_sibling) tag_walk(c);
+}
+static int snap_find(const struct snap *s, uint64_t gp) { for (unsigned i = 0; i < s->n && i < MAXO; i++) if (s->gp[i] == gp) return (int) i; return -1; }
+static unsigned re_runs, re_ok, re_einval;
+static void restrict_case(unsigned long set, unsigned long flags)
+{
+  struct hwloc_topology *t = vp_seed_build(SEED, 0);
+  static struct snap A, B; A.n = B.n = 0;
+  hwloc_obj_t root = t->levels[0][0];
+  tag_walk(root);      /* userdata of every object in the tree (objects removed at load time are gone) */
+  snap_walk(root, &A);
+  unsigned long ac = vp_w(t->allowed_cpuset), an = vp_w(t->allowed_nodeset);
+  hwloc_bitmap_t s = vp_bm(set);
+  int bynode = (flags & HWLOC_RESTRICT_FLAG_BYNODESET) != 0;
+  errno = 0;
+  int r = hwloc_topology_restrict(t, s, flags);
+  re_runs++;
+  root = t->levels[0][0];
+  snap_walk(root, &B);
+  int nothing = bynode ? !(set & an) : !(set & ac);
+  /* which resources go: by cpuset, the CPUs outside S, and (REMOVE_CPULESS) the nodes whose cpuset does not reach S; symmetrically by nodeset */
+  unsigned long dropc = 0, dropn = 0;
+  if (!bynode) { dropc = A.cc[0] & ~set; if (flags & HWLOC_RESTRICT_FLAG_REMOVE_CPULESS) for (unsigned i = 0; i < A.n; i++) if (A.type[i] == HWLOC_OBJ_NUMANODE && !(A.c[i] & set)) dropn |= A.nd[i]; }
+  else { dropn = A.cn[0] & ~set; if (flags & HWLOC_RESTRICT_FLAG_REMOVE_MEMLESS) for (unsigned i = 0; i < A.n; i++) if (A.type[i] == HWLOC_OBJ_PU && !(A.nd[i] & set)) dropc |= A.c[i]; }
+  /* a call that would leave no NUMA node (resp. no PU) is refused like a set that keeps nothing */
+  int all_gone = bynode ? !(ac & ~dropc) : !(an & ~dropn);
+  if (nothing || all_gone) {
+    VP_CHECK(r == -1 && errno == EINVAL, "restrict: a set that does not intersect the allowed set, or that would leave no PU or no NUMA node -> EINVAL");
+    VP_CHECK(A.n == B.n && vp_w(t->allowed_cpuset) == ac && vp_w(t->allowed_nodeset) == an, "restrict: EINVAL leaves the topology observably unchanged");
+    for (unsigned i = 0; i < A.n && i < MAXO; i++) VP_CHECK(A.gp[i] == B.gp[i] && A.type[i] == B.type[i] && A.c[i] == B.c[i] && A.cc[i] == B.cc[i] && A.nd[i] == B.nd[i] && A.cn[i] == B.cn[i] && A.parent_gp[i] == B.parent_gp[i], "restrict: EINVAL leaves every object unchanged");
+    re_einval++;
+    return;
+  }
+  VP_CHECK(r == 0, "restrict succeeds when the set keeps something");
+  if (r) return;
+  VP_CHECK(B.c[0] == (A.c[0] & ~dropc) && B.cc[0] == (A.cc[0] & ~dropc) && vp_w(t->allowed_cpuset) == (ac & ~dropc), "restrict: topology, complete and allowed cpusets are their previous values minus the dropped CPUs");
+  VP_CHECK(B.nd[0] == (A.nd[0] & ~dropn) && B.cn[0] == (A.cn[0] & ~dropn) && vp_w(t->allowed_nodeset) == (an & ~dropn), "restrict: topology, complete and allowed nodesets are their previous values minus the dropped nodes");
+  /* every remaining object is a previously existing object whose sets are its old sets minus the dropped resources */
+  for (unsigned i = 0; i < B.n && i < MAXO; i++) {
+    int k = snap_find(&A, B.gp[i]);
+    VP_CHECK(k >= 0, "restrict: every remaining object existed before (same gp_index)");
+    if (k < 0) continue;
+    VP_CHECK(A.type[k] == B.type[i] && B.ud[i] == A.ud[k], "restrict: same type, userdata untouched");
+    if (A.has_sets[k]) VP_CHECK(B.c[i] == (A.c[k] & ~dropc) && B.cc[i] == (A.cc[k] & ~dropc) && B.nd[i] == (A.nd[k] & ~dropn) && B.cn[i] == (A.cn[k] & ~dropn), "restrict: each set is its old value minus the dropped resources");
+  }
+  /* what must survive and what must go */
+  for (unsigned k = 0; k < A.n && k < MAXO; k++) {
+    int still = snap_find(&B, A.gp[k]) >= 0;
+    if (A.type[k] == HWLOC_OBJ_PU) VP_CHECK(still == !(A.c[k] & dropc), "restrict: the PUs are exactly the previous PUs that are not dropped");
+    else if (A.type[k] == HWLOC_OBJ_NUMANODE) VP_CHECK(still == !(A.nd[k] & dropn), "restrict: a NUMA node disappears only when it is dropped (outside S, or CPU-less with REMOVE_CPULESS)");
+    else if (hwloc__obj_type_is_normal(A.type[k])) {
+      /* a normal object goes only when no PU and no NUMA node is left below it (the seeds have no mergeable level) */
+      int keeps = ((A.c[k] & ~dropc) != 0) || ((A.nd[k] & ~dropn) != 0 && !(A.c[k]));
+      if ((A.c[k] & ~dropc) != 0) VP_CHECK(still, "restrict: a normal object that keeps a PU survives");
+      if (!(A.c[k] & ~dropc) && !bynode) { int mem_below = 0; for (unsigned j = 0; j < A.n && j < MAXO; j++) if (A.type[j] == HWLOC_OBJ_NUMANODE && A.parent_gp[j] == A.gp[k] && !(A.nd[j] & dropn)) mem_below = 1;
+        if (!mem_below) VP_CHECK(!still || k == 0, "restrict: a normal object left with no PU and no NUMA node is removed"); }
+      (void) keeps;
+    } else if (A.type[k] == HWLOC_OBJ_MISC || hwloc__obj_type_is_io(A.type[k])) {
+      /* special objects: kept when their (transitive) normal ancestor survives; otherwise dropped, or adopted by a surviving ancestor with the ADAPT flags */
+      uint64_t pg = A.parent_gp[k]; int hops = 0, anc_alive = 0, direct = 1;
+      while (hops++ < 6) { int pk = snap_find(&A, pg); if (pk < 0) break; if (hwloc__obj_type_is_normal(A.type[pk])) { anc_alive = snap_find(&B, A.gp[pk]) >= 0; break; } pg = A.parent_gp[pk]; direct = 0; }
+      (void) direct;
+      if (anc_alive) VP_CHECK(still, "restrict: Misc and I/O objects below a surviving object are never lost");
+      else if (A.type[k] == HWLOC_OBJ_MISC) VP_CHECK(still == ((flags & HWLOC_RESTRICT_FLAG_ADAPT_MISC) != 0), "restrict: Misc children of a removed object are dropped, or re-attached with ADAPT_MISC");
+      else VP_CHECK(still == ((flags & HWLOC_RESTRICT_FLAG_ADAPT_IO) != 0), "restrict: I/O children of a removed object are dropped, or re-attached with ADAPT_IO");
+      if (still && !anc_alive) { int bi = snap_find(&B, A.gp[k]); uint64_t np = B.parent_gp[bi]; int hop2 = 0, is_anc = 0; uint64_t g = A.parent_gp[k];
+        while (hop2++ < 8) { if (g == np) { is_anc = 1; break; } int pk = snap_find(&A, g); if (pk < 0) break; g = A.parent_gp[pk]; }
+        if (A.type[k] == HWLOC_OBJ_MISC || A.type[k] == HWLOC_OBJ_BRIDGE) VP_CHECK(is_anc, "restrict: an adopted Misc/I/O subtree hangs below a surviving ancestor of its old parent"); }
+    }
+  }
+  vp_wf_check(t, 0);
+  re_ok++;
+}
+VP_HARNESS(h_restrict_enum)
+{
+  /* by cpuset: every non-empty subset of the seed's PUs {0,1,2,5}, plus a set outside the topology; by nodeset: subsets of the seed's nodes */
+  static const unsigned long csets[17] = { 0x01, 0x02, 0x04, 0x20, 0x03, 0x05, 0x21, 0x06, 0x22, 0x24, 0x07, 0x23, 0x25, 0x26, 0x27, 0x08, 0x2f };
+  static const unsigned long cflags[4] = { 0, HWLOC_RESTRICT_FLAG_REMOVE_CPULESS | HWLOC_RESTRICT_FLAG_ADAPT_MISC | HWLOC_RESTRICT_FLAG_ADAPT_IO, HWLOC_RESTRICT_FLAG_REMOVE_CPULESS, HWLOC_RESTRICT_FLAG_ADAPT_MISC | HWLOC_RESTRICT_FLAG_ADAPT_IO };
+#if SEED == 2
+  static const unsigned long nsets[4] = { 0x1, 0x4, 0x5, 0x2 };
+#else
+  static const unsigned long nsets[4] = { 0x1, 0x2, 0x3, 0x4 };
+#endif
+  static const unsigned long nflags[3] = { HWLOC_RESTRICT_FLAG_BYNODESET, HWLOC_RESTRICT_FLAG_BYNODESET | HWLOC_RESTRICT_FLAG_REMOVE_MEMLESS | HWLOC_RESTRICT_FLAG_ADAPT_MISC | HWLOC_RESTRICT_FLAG_ADAPT_IO, HWLOC_RESTRICT_FLAG_BYNODESET | HWLOC_RESTRICT_FLAG_REMOVE_MEMLESS };
+  unsigned si = (unsigned) vp_in_range(0, 16), fi = (unsigned) vp_in_range(0, 3), mode = (unsigned) vp_in_range(0, 1);
+  unsigned ci = 0;
+  for (unsigned f = 0; f < NFL; f++) for (unsigned k = 0; k < 17; k++) if ((ci++ % NSLICE) == SLICE && mode == 0 && si == k && fi == f) restrict_case(csets[k], cflags[f]);
+  for (unsigned f = 0; f < (NFL > 3 ? 3 : NFL); f++) for (unsigned k = 0; k < 4; k++) if ((ci++ % NSLICE) == SLICE && mode == 1 && si == k && fi == f) restrict_case(nsets[k], nflags[f]);
+  VP_WITNESS_IF(re_runs >= 1 && re_ok + re_einval == re_runs, "a restrict of this slice executed and classified");
+}
